@@ -19,13 +19,11 @@ Proof. destruct ok, hva, hvk; reflexivity. Qed.
 (* for ok <> nk: which kind changes are reported *)
 Definition incompatible_doc (ok nk : kind) (hva hvk : bool) : bool :=
   match ok, nk with
-  | PO, KO | KO, PO | PK, PO | PK, KO => true
-  | PO, VK | PK, VK | VP, VK => negb hva || match ok with VP => true | _ => false end && negb hva
-  | PK, VP | KO, VP | VK, VP => negb hvk
-  | VP, _ => negb hva
-  | VK, _ => negb hvk
-  | KO, VK => false
-  | PO, VP => false
+  | PO, PK => false | PO, VP => false | PO, KO => true | PO, VK => negb hva
+  | PK, PO => true | PK, VP => negb hvk | PK, KO => true | PK, VK => negb hva
+  | VP, PO => negb hva | VP, PK => negb hva | VP, KO => negb hva | VP, VK => negb hva
+  | KO, PO => true | KO, PK => false | KO, VP => negb hvk | KO, VK => false
+  | VK, PO => negb hvk | VK, PK => negb hvk | VK, VP => negb hvk | VK, KO => negb hvk
   | _, _ => false
   end.
 Lemma incompatible_spec ok nk hva hvk : ok <> nk ->
